@@ -13,7 +13,7 @@ Local Open Scope Z_scope.
    happened BEFORE that block end, that
    - the required count is ceil(active * votePct / voteDec) for the active count of this EndBlock,
    - GUILTY: yes/required > allegPct/allegDec; INNOCENT: not that, and no/required > 1 - allegPct/allegDec
-     (as float64 computes them),
+     (exact integer comparisons, see C19_verdict_exact),
    - there are [yes] pairwise distinct addresses with an accepted YES vote event on this request and
      [no] pairwise distinct addresses with an accepted NO vote event. *)
 Theorem C19_verdict_follows_votes : forall c stk ops1 q ord s1 log1 s2 ev,
@@ -38,39 +38,37 @@ Theorem C19_one_vote_per_validator : forall c stk ops s log id r,
 Proof. exact one_vote_per_validator. Qed.
 Print Assumptions C19_one_vote_per_validator.
 
-(* the exact-rational reading of the configured shares holds outside the Coq-defined trigger
-   [float_tally_mismatch] (float64 and exact arithmetic agree on this tally) ... *)
-Theorem C19_verdict_exact_partial : forall c active yes no,
-  float_tally_mismatch c active yes no = false ->
-  required c active = required_x c active /\
-  (guilty_f c yes (required c active) = true -> guilty_x c yes (required_x c active) = true) /\
-  (guilty_f c yes (required c active) = false -> innocent_f c no (required c active) = true ->
-   innocent_x c no (required_x c active) = true /\ guilty_x c yes (required_x c active) = false).
-Proof. exact tally_exact_outside_trigger. Qed.
-Print Assumptions C19_verdict_exact_partial.
+(* the shares are the exact rational ones (full statement since /repo d95b5d2, which replaced the
+   float64 quotients by integer cross-multiplication): required is the ceiling of
+   active*votePct/voteDec, GUILTY iff yes/required > allegPct/allegDec, INNOCENT iff
+   no/required > 1 - allegPct/allegDec *)
+Theorem C19_verdict_exact : forall c active yes no req, 0 < voteDec c ->
+  (required_x c active - 1) * voteDec c < active * votePct c <= required_x c active * voteDec c /\
+  (guilty_x c yes req = true <-> yes * allegDec c > allegPct c * req) /\
+  (innocent_x c no req = true <-> no * allegDec c > (allegDec c - allegPct c) * req).
+Proof. exact tally_exact. Qed.
+Print Assumptions C19_verdict_exact.
 
 Definition cfg90 : Cfg := mkCfg 100 100 90 100 30 100 50 100 1 4 1000 16.
 Definition q10 : list (Z * Z) := map (fun i => (i, 3000000)) [1;2;3;4;5;6;7;8;9;10].
-(* ... and is false inside it: 10 active validators, all required, share 90%: one NO vote
-   (no/required = 1/10, not > 1 - 9/10) closes the request INNOCENT.  Known finding
-   C19.float_tally_mismatch, reproduced on the real code (findings/C19_float_tally_mismatch.json). *)
-Theorem C19_verdict_exact_refuted_1 : exists c stk ops id mal yes no req active,
-  cfg_ok c = true /\
-  EvVerdict id mal INNOCENT yes no req active ∈ (run c (init_with stk) ops).2 /\
-  float_tally_mismatch c active yes no = true /\ innocent_x c no (required_x c active) = false.
-Proof.
-  exists cfg90, [], [OBegin 2 30 []; OEnd q10 []; OBegin 3 45 []; OAllege 0 1 10 3; OVote 0 2 NO; OEnd q10 []],
-         0, 10, 0, 1, 10, 10.
-  split; [vm_compute; reflexivity|]. split; [|split; vm_compute; reflexivity].
-  apply elem_of_list_In. vm_compute. repeat first [left; reflexivity | right].
-Qed.
+(* the former witness of C19.float_tally_mismatch (fixed by d95b5d2), now an example of the repaired
+   behaviour: 10 active validators, all required, share 90%: one NO vote (no/required = 1/10, not
+   > 1 - 9/10) decides nothing, the request stays open with its vote; a second NO vote closes it *)
+Example C19_boundary_share_is_not_crossed :
+  let ops := [OBegin 2 30 []; OEnd q10 []; OBegin 3 45 []; OAllege 0 1 10 3; OVote 0 2 NO; OEnd q10 []] in
+  let r := run cfg90 (init_with []) ops in
+  cfg_ok cfg90 = true /\
+  r.2 = [EvTx true; EvOpened 0 1 10; EvTx true; EvVote 0 2 NO] /\
+  (r_votes <$> reqs r.1 !! 0) = Some [(2, NO)] /\
+  (run cfg90 r.1 [OBegin 4 60 []; OVote 0 3 NO; OEnd q10 []]).2 = [EvTx true; EvVote 0 3 NO; EvVerdict 0 10 INNOCENT 0 2 10 10].
+Proof. vm_compute. repeat split; reflexivity. Qed.
 
 (* (2) guilty => frozen byzantine-fault record at this height/time; stake reduced by exactly the
    penalty (when the accused has a validator record and the penalty does not exceed the stake; other
    validators' stakes untouched); the bounty program receives bounty_of(penalty) *)
-Theorem C19_guilty_frozen_and_penalised : forall c q active req s dec ev id r s' dec' ev',
+Theorem C19_guilty_xrozen_and_penalised : forall c q active req s dec ev id r s' dec' ev',
   process_req c q active req (s, dec, ev) id = (s', dec', ev') ->
-  reqs s !! id = Some r -> guilty_f c (count_choice YES (r_votes r)) req = true ->
+  reqs s !! id = Some r -> guilty_x c (count_choice YES (r_votes r)) req = true ->
   susp s' !! r_mal r = Some {| l_status := BYZ; l_fh := height s; l_fat := now s; l_rh := 0; l_rat := None |} /\
   is_frozen s' (r_mal r) = true /\
   (forall b, b <> r_mal r -> stake s' !! b = stake s !! b) /\
@@ -80,7 +78,7 @@ Theorem C19_guilty_frozen_and_penalised : forall c q active req s dec ev id r s'
                               bounty s' = bounty s + bounty_of c (penalty c amt)) /\
      (amt < penalty c amt -> stake s' = stake s /\ bounty s' = bounty s)).
 Proof. exact process_req_guilty. Qed.
-Print Assumptions C19_guilty_frozen_and_penalised.
+Print Assumptions C19_guilty_xrozen_and_penalised.
 
 (* the penalty is the configured percentage of the stake, rounded half up ... *)
 Theorem C19_penalty_is_percentage : forall c st, 0 < penDec c ->
@@ -197,7 +195,6 @@ Example C19_nonvacuous :
   cfg_ok cfg50 = true /\
   (run cfg50 (init_with q4) guilty_history).2 !! 5%nat = Some (EvVote 0 2 YES) /\
   EvVerdict 0 4 GUILTY 2 0 2 4 ∈ (run cfg50 (init_with q4) guilty_history).2 /\
-  float_tally_mismatch cfg50 4 2 0 = false /\
   stake (run cfg50 (init_with q4) guilty_history).1 !! 4 = Some (2997000 - 899100) /\
   bounty (run cfg50 (init_with q4) guilty_history).1 = 899100 * 10 ^ 18 / 2 /\
   byz_frozen_m (run cfg50 (init_with q4) guilty_history).1 4 = true.
